@@ -90,6 +90,7 @@ type Program struct {
 	renamed          map[*types.Func]string // renamed unexported functions: current object -> recorded key
 	byRecorded       map[string]*types.Func
 	byRecordedGlobal map[string]types.Object
+	typeByRecorded   map[string]*types.TypeName // renamed unexported types: "rel|RecordedName" -> current type
 
 	fileOf map[*token.File]*ast.File
 }
@@ -274,6 +275,9 @@ func (p *Program) Obj(rel, name string) types.Object {
 	if i := strings.IndexByte(name, '.'); i >= 0 {
 		tn, _ := pk.Types.Scope().Lookup(name[:i]).(*types.TypeName)
 		if tn == nil {
+			tn = p.typeByRecorded[rel+"|"+name[:i]] // renamed unexported type
+		}
+		if tn == nil {
 			return nil
 		}
 		obj, _, _ := types.LookupFieldOrMethod(types.NewPointer(tn.Type()), true, pk.Types, name[i+1:])
@@ -406,6 +410,7 @@ func FuncName(fn *ssa.Function) string {
 	}
 	s := fn.String()
 	s = strings.ReplaceAll(s, Module+"/", "")
+	s = aliasTypeNames(s, fnPkg(fn))
 	if old := recordedSimpleName(fn); old != "" && old != fn.Name() {
 		if i := strings.LastIndex(s, fn.Name()); i >= 0 {
 			s = s[:i] + old
